@@ -93,7 +93,7 @@ func c16Gen(rt *rapid.T) c16Case {
 			}
 			add(s)
 		}
-		target := rapid.SampledFrom([]int{1150, 1158, 1162}).Draw(rt, "deep_rows")
+		target := rapid.SampledFrom([]int{1150, 1158, 1162, 1162, 1740, 1746}).Draw(rt, "deep_rows")
 		for next < target {
 			k := per
 			if target-next < k {
